@@ -183,6 +183,10 @@ func c17Trees(w *run.Worker) {
 				// every second program: also after a multi-line literal (line breaks inside a token)
 				prog = []*rt.Node{rt.Assign("=", rt.Id("é"), rt.Str("é")), rt.Assign("=", rt.Id("ml"), c17MultiLine()), root}
 			}
+			if i%4 == 2 {
+				// every fourth program: the text starts with a byte-order mark (which reads as part of the first name)
+				prog = []*rt.Node{rt.Assign("=", rt.Id("\ufeffb"), rt.Str("é")), root}
+			}
 			src, sites := rt.PrintProg(prog, nil)
 			c17Tree(w, prog, src)
 			if w.WantSample() && i%503 == 0 {
@@ -247,6 +251,11 @@ func c17Lookup(w *run.Worker) {
 			rec(cur+a, n+1)
 		}
 	}
+	rec("", 0)
+	// other characters of more than one byte: a byte-order mark, a four-byte character, a Unicode line
+	// separator (not a line break here), next to a tab
+	alpha = []string{"a", "\n", "\ufeff", "😀", "\u2028", "\t"}
+	maxLen = 6
 	rec("", 0)
 }
 
@@ -666,7 +675,7 @@ func init() {
 		ID:    "C17",
 		Level: "model_checking",
 		Rule: "(A) every program of the C06 generator (all node kinds), preceded by a line containing a multi-byte rune, in base layout and with one layout insertion (LF, CRLF, bare CR, comment, semicolon, blanks) at every site: every position field of the parsed tree against the printer's token offset, line/column against an independent scan, StartPos() inside the node; " +
-			"(B) all 9841 texts of length <=8 over {a, newline, é} x every offset -1..len+1: PosCache.LnCol == LnCol == independent scan, invalid offsets rejected; " +
+			"(B) all texts of length <=8 over {a, newline, é, CR} and of length <=6 over {a, newline, byte-order mark, a four-byte character, U+2028, tab} x every offset -1..len+1: PosCache.LnCol == LnCol == independent scan, invalid offsets rejected; " +
 			"(C) 38 run-time faults (incl. a builtin whose literal pattern does not compile) x 16 syntactic roles x 6 places (top level, if body, else inside for-in, for body, inside a used script one and two use() levels down; after a multi-line literal and a back-quoted name containing a line break): script name, 0 <= offset < len(source), offset inside the statement at fault, line/column consistent, chain = call sites; " +
 			"(E) 14 load-time faults (8 recorded by node constructors, 6 lexical: open strings, a bad escape, an out-of-range octal, a malformed number) x 10 roles x 7 preceding texts (incl. line breaks inside tokens) x 3 following texts, each loaded together with a twin of identical text: positioned PlError naming its own script, inside the statement that holds the fault; (D) all chains of 1..4 positions over 2 file names x 3 positions x 7 message texts (format verbs, line breaks, quotes, empty): Error() rendering verbatim, JSON round trip, Copy()+ChainAppend isolation (also with spare capacity)",
 		Assumptions: []string{"load-time error positions are decided by C08 with the same offset oracle"},
